@@ -350,6 +350,15 @@ def run_case(case):
                         records.append({"op": r, "out": {"status": "skipped"}, "after": listing(root)})
                         continue
                     f = ex[op["pick"] % len(ex)]
+                    if op.get("pre_args") and kind in ("pkl", "json"):
+                        # history: an earlier call on the same object with read arguments of its OWN (result not used);
+                        # the arguments of one call must not become the defaults of the next
+                        try:
+                            fs.read(f, offset=int(op["pre_args"]))
+                            if op["pre_args"] % 2:
+                                fs.collect(files=[f], read_args={"offset": int(op["pre_args"]) + 1})
+                        except Exception:  # noqa
+                            pass
                     if name == "read":
                         r["path"] = rel(root, f.path)
                         data = fs.read(f.path) if op["pick"] % 2 else fs.read(f)
